@@ -88,6 +88,18 @@ size_t cv_iter_drain(c_iter_u64 *it, uint64_t *out, size_t max) {
 }
 int32_t cv_iter_next(c_iter_u64 *it, uint64_t *out) { return it->func(it->iter, out); }
 
+/* ---- an iterator MADE here, from the published layout, consumed by the other side: 0 = an item was written to *out, any
+ * other status = no item (this producer reports the end with a status chosen by the caller and counts how often it is
+ * asked again after that) ---- */
+typedef struct { const uint64_t *items; size_t n; size_t pos; int32_t end_status; size_t calls_after_end; } cv_arr_state;
+static int32_t cv_arr_next(void *s, uint64_t *out) {
+    cv_arr_state *st = (cv_arr_state *)s;
+    if (st->pos < st->n) { *out = st->items[st->pos++]; return 0; }
+    st->calls_after_end++;
+    return st->end_status;
+}
+void cv_arr_iter(c_iter_u64 *it, cv_arr_state *st) { it->iter = st; it->func = cv_arr_next; }
+
 /* ---- option / result tags ---- */
 uint32_t cv_opt_tag(const c_option_u64 *o) { return o->tag; }
 uint64_t cv_opt_value(const c_option_u64 *o) { return o->value; }
